@@ -13,6 +13,8 @@
 (* times.  A call is one of                                                *)
 (*   add_asn_literal / add_asn_by_path      adds one source                *)
 (*   add_asn_sources_by_path(iterator)      adds n >= 0 sources            *)
+(*   with_backend(backend)                  exchanges the backend, keeps    *)
+(*                                          typestate, sources and output   *)
 (*   set_output_path / set_output_mode      only while no output is set    *)
 (*   compile_to_string   (SourcesSet, Ready)   compile   (Ready)           *)
 (* What the user relies on: every add_* call APPENDS to the sources given  *)
@@ -30,7 +32,9 @@ Outs == {"path_file", "mode_file", "mode_dir", "mode_none"}     \* set_output_pa
 Finals == {"compile", "compile_to_string"}
 
 \* a builder value: typestate, sources in the order given (form = how each was given), output
-Fresh == [state |-> "MissingParams", sources |-> <<>>, out |-> "unset"]
+\* (switched: with_backend has exchanged the backend; sources and output stay as they are, and the backend that compiles is
+\* the one that names generated.<ext> inside a directory destination)
+Fresh == [state |-> "MissingParams", sources |-> <<>>, out |-> "unset", switched |-> FALSE]
 
 AfterAdd(s) == IF s \in {"MissingParams", "SourcesSet"} THEN "SourcesSet" ELSE "Ready"
 AfterOut(s) == IF s = "MissingParams" THEN "OutputSet" ELSE "Ready"
@@ -38,6 +42,7 @@ AfterOut(s) == IF s = "MissingParams" THEN "OutputSet" ELSE "Ready"
 \* is the call available in this typestate (does the method exist on Compiler<B, S>)?
 Legal(b, c) ==
     CASE c.op \in AddOps -> TRUE
+      [] c.op = "with_backend" -> TRUE          \* exists in every typestate and keeps it
       [] c.op = "set_output" -> b.state \in {"MissingParams", "SourcesSet"}
       [] c.op = "compile_to_string" -> b.state \in {"SourcesSet", "Ready"}
       [] c.op = "compile" -> b.state = "Ready"
@@ -48,11 +53,12 @@ NewSources(b, c) == [i \in 1..c.n |-> [id |-> Len(b.sources) + i, form |-> c.op]
 Apply(b, c) ==
     CASE c.op \in AddOps -> [b EXCEPT !.state = AfterAdd(b.state), !.sources = b.sources \o NewSources(b, c)]
       [] c.op = "set_output" -> [b EXCEPT !.state = AfterOut(b.state), !.out = c.out]
+      [] c.op = "with_backend" -> [b EXCEPT !.switched = TRUE]
       [] OTHER -> b
 
 RECURSIVE Run(_, _)
 \* the builder after a sequence of calls; state "illegal" if one of them does not exist in its typestate
-Illegal == [state |-> "illegal", sources |-> <<>>, out |-> "unset"]
+Illegal == [state |-> "illegal", sources |-> <<>>, out |-> "unset", switched |-> FALSE]
 Run(b, calls) ==
     IF calls = <<>> THEN b
     ELSE IF ~Legal(b, Head(calls)) THEN Illegal
@@ -67,10 +73,12 @@ Init == b = Fresh /\ calls = <<>> /\ final = "none"
 Calls == {[op |-> o, n |-> 1, out |-> "na"] : o \in {"add_asn_literal", "add_asn_by_path"}}
          \cup {[op |-> "add_asn_sources_by_path", n |-> k, out |-> "na"] : k \in 0..NSrc}
          \cup {[op |-> "set_output", n |-> 0, out |-> o] : o \in Outs}
+         \cup {[op |-> "with_backend", n |-> 0, out |-> "na"]}
 
 Call(c) ==
     /\ final = "none" /\ Len(calls) < MaxCalls
     /\ Legal(b, c)
+    /\ c.op = "with_backend" => ~b.switched        \* the model exchanges the backend at most once
     /\ Len(b.sources) + c.n <= NSrc
     /\ b' = Apply(b, c) /\ calls' = Append(calls, c) /\ UNCHANGED final
 
@@ -94,6 +102,7 @@ SourcesAccumulate == Ids(b.sources) = [i \in 1..Len(b.sources) |-> i]
 StateMeansWhatItSays ==
     /\ (b.state \in {"SourcesSet", "Ready"}) <=> (\E i \in 1..Len(calls) : calls[i].op \in AddOps)
     /\ (b.state \in {"OutputSet", "Ready"}) <=> (b.out # "unset")
+    /\ b.switched <=> (\E i \in 1..Len(calls) : calls[i].op = "with_backend")
 \* compile() is only reachable with an output, and works on all the sources
 CompileHasEverything == Done => Len(b.sources) = NSrc /\ (final = "compile" => b.out # "unset")
 \* the step-by-step machine and the fold agree
